@@ -290,6 +290,25 @@ def correspondence(ctx):
 
 def gbs_case(rng):
     n = rng.randint(1, 4)
+    if n >= 2 and rng.random() < 0.25:
+        # two (or three) Fock measurements on disjoint mode sets with commands in between: plain gates on measured / unmeasured modes,
+        # gates fed by an earlier photon count acting on a measured or a not-yet-measured mode.  Nothing but another MeasureFock may sit
+        # between the measurements in the source for the collection to be legal.
+        cmds = [("g1", [rng.randrange(n)], None) for _ in range(rng.randint(0, 2))]
+        modes = list(range(n))
+        rng.shuffle(modes)
+        cut = rng.randint(1, n - 1)
+        groups = [modes[:cut], modes[cut:]]
+        measured = []
+        for gi, grp in enumerate(groups):
+            cmds.append(("mf", grp, None))
+            measured += grp
+            if gi + 1 < len(groups):
+                for _ in range(rng.randint(0, 2)):
+                    kind = rng.choice(["gp", "gp", "g1"])
+                    tgt = rng.choice(modes if rng.random() < 0.3 else groups[gi + 1])
+                    cmds.append((kind, [tgt], rng.choice(measured) if kind == "gp" else None))
+        return n, cmds
     cmds = []
     for _ in range(rng.randint(0, 5)):
         if rng.random() < 0.6 or n < 2:
@@ -299,7 +318,12 @@ def gbs_case(rng):
     k = rng.randint(0, 3)
     for _ in range(k):
         ms = rng.sample(range(n), rng.randint(1, n))
-        cmds.insert(rng.randint(0, len(cmds)), ("mf", ms, None))
+        pos = rng.randint(0, len(cmds))
+        cmds.insert(pos, ("mf", ms, None))
+        if rng.random() < 0.4:
+            # feed-forward: a gate whose parameter is one of these photon counts, on any mode (measured or not), somewhere later —
+            # it can never be moved in front of the measurement it depends on, whichever mode it acts on
+            cmds.insert(rng.randint(pos + 1, len(cmds)), ("gp", [rng.randrange(n)], rng.choice(ms)))
     if n >= 2 and rng.random() < 0.35:
         # a deleted mode: every later command must avoid it (the front end rejects uses of a deleted mode)
         dm = rng.randrange(n)
@@ -373,7 +397,7 @@ def search(ctx):
             ctx.counterexample("gbs:measurement-collection", "compiled circuit measures %s, expected one final MeasureFock on %s" % (meas, ms), data)
             continue
         # the non-measurement part must be the commands of A with the same per-wire order
-        NAME = {"g1": "Rgate", "g2": "BSgate", "del": "_Delete"}
+        NAME = {"g1": "Rgate", "g2": "BSgate", "del": "_Delete", "gp": "Rgate"}
         exp = [(NAME[cmds[i][0]], cmds[i][1]) for i in ia]
         if sorted(map(repr, others)) != sorted(map(repr, exp)):
             ctx.counterexample("gbs:commands-changed", "compiled Gaussian part %s differs from the source's %s" % (others, exp), data)
